@@ -84,6 +84,11 @@ def _pack(r, recs):
                 partial=getattr(r, 'partial', None))
 
 
+def verify_record(ob):
+    from . import verify
+    return verify.obligation_record(ob)
+
+
 def run_functions(keys, tier, extra=None, procs=None, expected_fail=()):
     """Explore every function (sequential, seconds), then discharge all obligations of all
     functions on a pool of forked workers that inherit the z3 terms: one query per obligation."""
@@ -112,9 +117,28 @@ def run_functions(keys, tier, extra=None, procs=None, expected_fail=()):
                 done[i] = _discharge(i)[1]
         else:
             ctx = multiprocessing.get_context('fork')
-            with ctx.Pool(min(procs, len(todo))) as pool:
-                for i, rec in pool.imap_unordered(_discharge, todo, chunksize=1):
+            pool = ctx.Pool(min(procs, len(todo)))
+            try:
+                it = pool.imap_unordered(_discharge, todo, chunksize=1)
+                while True:
+                    try:
+                        # every query has its own solver time-out; a worker that still does not answer for ten
+                        # minutes is hung: its obligations stay undecided instead of hanging the check
+                        i, rec = it.next(timeout=600)
+                    except StopIteration:
+                        break
+                    except multiprocessing.TimeoutError:
+                        print('NOTE a discharge worker did not answer within 600 s: remaining obligations left unknown')
+                        break
                     done[i] = rec
+            finally:
+                pool.terminate()
+                pool.join()
+            for i in todo:
+                if i not in done:
+                    fi, ob, t = _OBS[i]
+                    ob.status, ob.backend, ob.detail = 'unknown', 'none', 'discharge worker hung'
+                    done[i] = verify_record(ob)
     from . import verify, smt
     # an `unknown` may be a time-out under load: retry alone, one after the other, with a 6x budget,
     # before anything is made of it
@@ -345,8 +369,26 @@ def run_audit(keys):
     from . import audit
     allow = audit.load_allow()
     ctx = multiprocessing.get_context('fork')
-    with ctx.Pool(min(16, max(1, len(keys)))) as pool:
-        res = pool.map(_audit_one, keys, chunksize=1)
+    # one task per function with a wall-clock limit: a worker that hangs (a forked z3 that never returns) must not
+    # hang the check -- the audit of that function is then undetermined, which is not a failure
+    limit = int(os.environ.get('PYVC_AUDIT_SECS', '300')) + 180
+    res = []
+    pool = ctx.Pool(min(16, max(1, len(keys))))
+    try:
+        tasks = [(k, pool.apply_async(_audit_one, (k,))) for k in keys]
+        t_end = time.time() + limit
+        for k, t in tasks:
+            try:
+                res.append(t.get(timeout=max(1.0, t_end - time.time())))
+            except multiprocessing.TimeoutError:
+                print('NOTE vacuity audit of %s did not finish within %d s: undetermined' % (k, limit))
+                res.append(([], 0, 1))
+            except Exception as e:
+                print('NOTE vacuity audit of %s failed: %s' % (k, str(e)[:200]))
+                res.append(([], 0, 1))
+    finally:
+        pool.terminate()
+        pool.join()
     out = dict(paths=0, unknown=0, allowed=0, unexpected=[])
     for closed, n, unk in res:
         out['paths'] += n
